@@ -304,6 +304,7 @@ func H_C19_send() {
 	refuse := make([]bool, nAll+nType)
 	var expectOrderAll, expectOrderType []int
 	ai, ti := 0, 0
+	removed, removedID := -1, int64(0)
 	order := zz.Param(2)
 	for ai < nAll || ti < nType {
 		pickAll := ai < nAll && (ti >= nType || order&1 == 0)
@@ -327,7 +328,11 @@ func H_C19_send() {
 			}
 		}(id)
 		if pickAll {
-			h.HandleOutgoing(simplefixgo.AllMsgTypes, cb)
+			rid := h.HandleOutgoing(simplefixgo.AllMsgTypes, cb)
+			if removed < 0 && zz.Param(7) == 1 {
+				removed, removedID = id, rid
+				zz.Assume(!refuse[id])
+			}
 			expectOrderAll = append(expectOrderAll, id)
 			ai++
 		} else {
@@ -342,6 +347,19 @@ func H_C19_send() {
 			ti++
 		}
 	}
+	if removed >= 0 {
+		// the application takes its first all-types handler out again, with the identifier it was
+		// given; whether the pool honours that is not C19's subject (its calls are filtered out
+		// below), but the store hook and the other handlers must be unaffected
+		_ = h.RemoveOutgoingHandler(simplefixgo.AllMsgTypes, removedID)
+		keep := expectOrderAll[:0]
+		for _, id := range expectOrderAll {
+			if id != removed {
+				keep = append(keep, id)
+			}
+		}
+		expectOrderAll = keep
+	}
 	for n := 0; n < zz.Param(5); n++ {
 		log = log[:0]
 		var m messages.Message
@@ -354,6 +372,15 @@ func H_C19_send() {
 		errSend := s.Send(m)
 		out := h.VerifOut()
 		zz.Reach("sent")
+		if removed >= 0 {
+			kept := log[:0]
+			for _, e := range log {
+				if e.id != removed {
+					kept = append(kept, e)
+				}
+			}
+			log = kept
+		}
 		// expected call sequence: store hook (registered first, in the constructor), then all-types
 		// handlers in registration order, then type handlers; stop at the first refusal
 		var want []int
